@@ -22,6 +22,13 @@ extern "C" __attribute__((used)) const char* __ubsan_default_options()
 // default for the guarded scheduling-point hook of the library (schedsim provides the real one)
 extern "C" __attribute__((weak)) void foonathan_memory_verif_yield(const char*) noexcept {}
 
+#ifdef VERIF_COVERAGE
+extern "C" void __gcov_dump(void);
+#define VERIF_COV_DUMP() __gcov_dump()
+#else
+#define VERIF_COV_DUMP() ((void)0)
+#endif
+
 namespace sim
 {
     namespace
@@ -126,6 +133,7 @@ namespace sim
             stats().print(stdout);
             std::printf("END\n");
             std::fflush(stdout);
+            VERIF_COV_DUMP();
             _exit(r.violated ? 1 : 0);
         }
         if (mode == "run")
@@ -176,12 +184,14 @@ namespace sim
                     // continues with the next index in a fresh process
                     stats().print(stdout);
                     std::fflush(stdout);
+                    VERIF_COV_DUMP();
                     _exit(0);
                 }
             }
             stats().print(stdout);
             std::printf("END\n");
             std::fflush(stdout);
+            VERIF_COV_DUMP();
             _exit(bad ? 1 : 0); // static destruction of a process that abandoned objects proves nothing
         }
         std::fprintf(stderr, "unknown mode %s\n", mode.c_str());
